@@ -1038,6 +1038,7 @@ package router
 //@   ensures [C10:every-rule-kept-in-order] err == nil ==> rr != nil && len(rr.rules) == len(cfg.Rules)
 //@             && forall(k, 0, len(cfg.Rules), ruleAsConfigured(rr, rr.rules[k], cfg.Rules[k].Reverse, cfg.Rules[k].Domain, cfg.Rules[k].Reject, cfg.Rules[k].Forward))
 //@   ensures [C18:startup-error-returns-no-router] err != nil ==> rr == nil
+//@   ensures [C18:every-started-listener-has-its-closer-registered] err == nil ==> len(rr.serverClosers) == (old(len(cfg.Metrics.Addr)) > 0 ? 1 : 0) + len(cfg.Servers)
 //@   ensures [C18:a-started-router-can-be-closed] err == nil ==> rr.ctx != nil && rr.cancel != nil && rr.limiter != nil && closersOK(rr) && upstreamsOK(rr)
 //@   callsite startServer?: [C18:listeners-start-on-a-fully-initialised-router] routerReady(arg0)
 //@   loop 1:
@@ -1053,6 +1054,7 @@ package router
 //@     modifies r.serverClosers, obj(r.serverClosers)
 //@     invariant closersOK(r) && (loopFresh(r.serverClosers) || sameObj(r.serverClosers, loopOld(r.serverClosers)))
 //@     invariant routerReady(r)
+//@     invariant [C18:no-registered-closer-is-dropped] len(r.serverClosers) == (old(len(cfg.Metrics.Addr)) > 0 ? 1 : 0) + rangeindex_4 + 1
 
 // ---- server_tcp_gnet_linux.go: reassembly of the length-prefixed stream (C13) -----------------------------
 //@ func getRequestContext() (rc *RequestContext)
@@ -1302,8 +1304,8 @@ package router
 //@   aftercall LimitReader?: gN = arg1
 //@   modifies nothing
 //@   ensures m != nil ==> fresh(m) && wfMsg(m) && !attr(released, m)
-//@   callsite ReadFrom?: [C01:request-body-read-through-the-64k-limit] arg1 == gLR && gN == 65535
-//@   callsite LimitReader?: [C01:bounded-body] arg0 == req.Body
+//@   callsite ReadFrom?: [C01,C03:request-body-read-through-the-64k-limit] arg1 == gLR && gN == 65535
+//@   callsite LimitReader?: [C01,C03:bounded-body] arg0 == req.Body
 //@   callsite GetBuf?: [C01:bounded-decode-buffer] arg0 <= 65535
 // which bytes become the query: GET - the base64url text of the "dns" parameter of this request's query string,
 // decoded into this call's own buffer; POST - this request's body; the message decoded from exactly those bytes is
@@ -1458,7 +1460,7 @@ package router
 //@   aftercall LimitReader?: gN = arg1
 //@   modifies nothing
 //@   ensures m != nil ==> fresh(m) && wfMsg(m) && !attr(released, m)
-//@   callsite ReadFrom?: [C01:request-body-read-through-the-64k-limit] arg1 == gLR && gN == 65535
+//@   callsite ReadFrom?: [C01,C03:request-body-read-through-the-64k-limit] arg1 == gLR && gN == 65535
 //@   callsite GetBuf?: [C01:bounded-decode-buffer] arg0 <= 65535
 // (as in the net/http handler) GET: the "dns" query argument, base64url-decoded into this call's own buffer; POST:
 // the body stream of this request; the message decoded from exactly those bytes is returned; otherwise one status
